@@ -301,12 +301,7 @@ impl<CharIter: Iterator<Item = char>> Lexer<CharIter> {
                                 break;
                             }
                         },
-                        None => {
-                            return located_error!(
-                                SyntaxError::InvalidIdentifier(identifier_str.clone()),
-                                Some(self.location)
-                            );
-                        }
+                        None => break,
                     }
                 },
                 false => {
